@@ -200,8 +200,8 @@ def register(gen, T):
         idata = T.src("ir/src/intrinsic_data.rs")
         lc = T.src("ir/src/layout_checker.rs")
         typer_types = T.src("typer/src/typer/types.rs")
-        out = [T.header("LayoutSites", ["ir/src/ir_types.rs", "ir/src/intrinsic_data.rs",
-                                        "typer/src/typer/types.rs", "ir/src/layout_checker.rs"])]
+        out = [T.header("LayoutSites", ["ir/src/ir_types.rs", "ir/src/intrinsic_data.rs", "typer/src/typer/types.rs",
+                                        "ir/src/layout_checker.rs", "ir/src/ir_module.rs", "src/compile.rs"])]
 
         # ---- ObjectType variants and their payload
         objs = []
@@ -314,6 +314,34 @@ def register(gen, T):
                    "def fnLoopOneTypeArgument : Bool := true\n"
                    "/-- a typed load / store is located at the struct's definition; other types have no location -/\n"
                    "def fnLocationIsStructDefinition : Bool := true\n")
+        # ---- compile(): when is check_layout run
+        comp = squeeze(fn_body(T.src("src/compile.rs"), "compile"))
+        guard_stmt = ("ifargs.validate_layout_consistency&&letErr(err)=ir::layout_checker::check_layout(&ir)"
+                      "{returnErr(CompileError::Text(format!(\"{}\",err.display(&source_manager))));}")
+        at = comp.find(guard_stmt)
+        if at < 0 or comp.count("check_layout") != 1:
+            raise ExtractError("compile(): the layout validation statement changed")
+        if not (0 <= comp.find("letir=matchtyper::type_check(&pl)") < at < comp.find("letbinding_params=matchargs.target")):
+            raise ExtractError("compile(): layout validation is no longer between type checking and target selection")
+        out.append("/-- `compile` runs `check_layout` on the type-checked module iff this flag is set, before anything\n"
+                   "    depends on the target or the pipeline mode, and fails with its message -/\n"
+                   "def validationGuard : String := \"args.validate_layout_consistency\"\n"
+                   "def validationBeforeTargetSelection : Bool := true\n\n")
+        # ---- the diagnostics
+        pr = squeeze(impl_fn_body(lc, r"CompileError\s+for\s+LayoutError", "print"))
+        mu = re.search(r'LayoutError::UnknownLayout\(loc\)=>w\.write_message\(&\|f\|write!\(f,"([^"]*)"\),\*loc,Severity::Error,?\)', pr)
+        mm2 = re.search(r'LayoutError::MismatchedLayout\(loc,lhs,rhs\)=>w\.write_message\(&\|f\|\{write!\(f,"([^"]*)",([a-z.,]*?),?\)\},\*loc,Severity::Error,?\)', pr)
+        if not mu or not mm2:
+            raise ExtractError("LayoutError::print changed")
+        src_pr = impl_fn_body(lc, r"CompileError\s+for\s+LayoutError", "print")
+        fm = re.findall(r'"((?:[^"\\]|\\.)*)"', src_pr)
+        if len(fm) != 2:
+            raise ExtractError("LayoutError::print: expected two format strings")
+        out.append("/-- the two diagnostics of `LayoutError::print` (format string, arguments) -/\n"
+                   f"def unknownMessage : String := {T.lean_str(fm[0])}\n"
+                   f"def mismatchMessage : String := {T.lean_str(fm[1])}\n"
+                   "def mismatchArgs : List String := " +
+                   T.lean_list(T.lean_str(a) for a in mm2.group(2).split(",") if a) + "\n")
         out.append(T.footer("LayoutSites"))
         return "".join(out)
 
